@@ -20,6 +20,7 @@ import (
 	"github.com/MichaelMure/git-bug/cache"
 	"github.com/MichaelMure/git-bug/entities/bug"
 	"github.com/MichaelMure/git-bug/entity"
+	"github.com/MichaelMure/git-bug/entity/dag"
 	"github.com/MichaelMure/git-bug/repository"
 )
 
@@ -77,6 +78,10 @@ func runC17(c *runCtx) {
 	}
 	rc.SetUserIdentity(iden)
 	b0, _, _ := rc.Bugs().New("first bug", "body")
+	fileHash, err := repo.StoreData([]byte("an uploaded file " + randHexId(c.rng, 6)))
+	if err != nil {
+		panic(err)
+	}
 	b0.AddComment("a comment")
 	b0.Commit()
 	_ = dir
@@ -207,8 +212,16 @@ func runC17(c *runCtx) {
 						name, _ := inf["name"].(string)
 						var val string
 						switch strings.ToLower(name) {
-						case "clientmutationid", "reporef", "files":
+						case "clientmutationid", "reporef":
 							continue
+						case "files":
+							// a file uploaded before (the web UI's attach flow): with valid arguments, half of the time
+							if !valid || !r.chance(1, 2) {
+								continue
+							}
+							val = fmt.Sprintf("[%q]", string(fileHash))
+							sent["files"] = string(fileHash)
+							c.count("mutation-with-files")
 						case "prefix":
 							val = fmt.Sprintf("%q", string(b0.Id())[:10])
 							if !valid && !edge {
@@ -311,6 +324,7 @@ func runC17(c *runCtx) {
 					} else if valid && !hasErr {
 						// the change is recorded: every new operation is authored by the request's user
 						newOps := 0
+						filesRecorded := false
 						var kinds []string
 						for id, n := range opCount() {
 							x, _ := rc.Bugs().Resolve(id)
@@ -318,6 +332,11 @@ func runC17(c *runCtx) {
 							for _, o := range ops[opsBefore[id]:n] {
 								newOps++
 								kinds = append(kinds, fmt.Sprintf("%T", o))
+								if wf, ok := o.(dag.OperationWithFiles); ok {
+									for _, h := range wf.GetFiles() {
+										filesRecorded = filesRecorded || string(h) == sent["files"]
+									}
+								}
 								if o.Author().Id() != web.Id() {
 									c.violation(c.nCases, "C17/wrong-author", fmt.Sprintf("mutation %s recorded a %T not authored by the request's user", f.Name, o), nil)
 								}
@@ -325,6 +344,9 @@ func runC17(c *runCtx) {
 						}
 						if newOps == 0 {
 							c.violation(c.nCases, "C17/no-change-with-user", fmt.Sprintf("mutation %s reported success but recorded no operation", f.Name), nil)
+						}
+						if sent["files"] != "" && !filesRecorded {
+							c.violation(c.nCases, "C17/change-not-reflected", fmt.Sprintf("mutation %s with a user: the attached file %s is on none of the recorded operations", f.Name, sent["files"]), nil)
 						}
 						// exactly the requested change: the operations of this mutation, no more, no fewer
 						if want, ok := wantOps[f.Name]; ok && newOps > 0 {
